@@ -7,7 +7,11 @@ use super::term::Term;
 use super::triple::{Triple, TriplePattern};
 use grafeo_common::types::TxId;
 use grafeo_common::utils::hash::FxHashSet;
+#[cfg(not(kani))]
 use hashbrown::HashMap;
+// verification builds (`cargo kani`): association-list stand-ins, see grafeo_common::utils::kani_shim
+#[cfg(kani)]
+use grafeo_common::utils::hash::FxHashMap as HashMap;
 use parking_lot::RwLock;
 use std::sync::Arc;
 
@@ -61,11 +65,20 @@ pub struct RdfStore {
     /// All triples (primary storage).
     triples: RwLock<FxHashSet<Arc<Triple>>>,
     /// Subject index: subject -> triples.
+    #[cfg(not(kani))]
     subject_index: RwLock<hashbrown::HashMap<Term, Vec<Arc<Triple>>, ahash::RandomState>>,
+    #[cfg(kani)]
+    subject_index: RwLock<HashMap<Term, Vec<Arc<Triple>>>>,
     /// Predicate index: predicate -> triples.
+    #[cfg(not(kani))]
     predicate_index: RwLock<hashbrown::HashMap<Term, Vec<Arc<Triple>>, ahash::RandomState>>,
+    #[cfg(kani)]
+    predicate_index: RwLock<HashMap<Term, Vec<Arc<Triple>>>>,
     /// Object index: object -> triples (optional).
+    #[cfg(not(kani))]
     object_index: RwLock<Option<hashbrown::HashMap<Term, Vec<Arc<Triple>>, ahash::RandomState>>>,
+    #[cfg(kani)]
+    object_index: RwLock<Option<HashMap<Term, Vec<Arc<Triple>>>>>,
     /// Transaction buffers for pending operations.
     tx_buffer: RwLock<TransactionBuffer>,
 }
@@ -78,6 +91,9 @@ impl RdfStore {
 
     /// Creates a new RDF store with the given configuration.
     pub fn with_config(config: RdfStoreConfig) -> Self {
+        #[cfg(kani)]
+        let object_index = if config.index_objects { Some(HashMap::default()) } else { None };
+        #[cfg(not(kani))]
         let object_index = if config.index_objects {
             Some(hashbrown::HashMap::with_capacity_and_hasher(
                 config.initial_capacity,
@@ -89,14 +105,20 @@ impl RdfStore {
 
         Self {
             triples: RwLock::new(FxHashSet::default()),
+            #[cfg(not(kani))]
             subject_index: RwLock::new(hashbrown::HashMap::with_capacity_and_hasher(
                 config.initial_capacity,
                 ahash::RandomState::new(),
             )),
+            #[cfg(kani)]
+            subject_index: RwLock::new(HashMap::default()),
+            #[cfg(not(kani))]
             predicate_index: RwLock::new(hashbrown::HashMap::with_capacity_and_hasher(
                 config.initial_capacity,
                 ahash::RandomState::new(),
             )),
+            #[cfg(kani)]
+            predicate_index: RwLock::new(HashMap::default()),
             object_index: RwLock::new(object_index),
             tx_buffer: RwLock::new(TransactionBuffer::default()),
             config,
